@@ -268,6 +268,16 @@ func cmdCheck(args []string) int {
 	if len(openFindings) > 0 || discharged < total {
 		level = "other"
 	}
+	// properties whose statement is only partly within reach of contracts: /verif/contracts/partial.json names the part
+	// that is not decided; the level is then 'other' even when every generated obligation is discharged
+	undecided := ""
+	if b, err := os.ReadFile(filepath.Join(o.verif, "contracts", "partial.json")); err == nil {
+		var pm map[string]string
+		if json.Unmarshal(b, &pm) == nil && pm[o.prop] != "" {
+			undecided = pm[o.prop]
+			level = "other"
+		}
+	}
 	var tb []string
 	for t := range trusted {
 		tb = append(tb, t)
@@ -307,6 +317,10 @@ func cmdCheck(args []string) int {
 	}
 	if level == "other" {
 		cov["explanation"] = fmt.Sprintf("contract proof with %d of %d obligations discharged; undischarged obligations are listed in per_obligation (known findings: %v)", discharged, total, openFindings)
+		if undecided != "" {
+			cov["explanation"] = cov["explanation"].(string) + "; part of the property statement not decided by this check: " + undecided
+			cov["not_decided"] = undecided
+		}
 	}
 	ev := evidence{PropertyID: o.prop, Tier: o.tier, Seed: seed, Level: level, Coverage: cov, Assumptions: assumptionsFor(o.prop, tb), WallS: time.Since(t0).Seconds(), Violations: violations}
 	if err := writeJSON(filepath.Join(o.verif, "evidence", o.prop+".json"), ev); err != nil {
